@@ -59,6 +59,7 @@ def make_jobs(prop, tier, seed):
             jobs.append({"kind": "pbound", "prop": prop, "seed": seed * 104729 + j, "k": 2, "budget": 2500})
     else:
         jobs.append({"kind": "pbound", "prop": prop, "seed": seed * 104729, "k": 1, "budget": 300})
+    jobs.extend(plug.line_jobs(prop, tier, seed, scenarios=8, schedules=6))
     return jobs
 
 
@@ -113,6 +114,8 @@ def _run_batch(prop, items, use_driver=True):
         if r["switches"] > 0:
             res["distinct"].append(hashlib.sha1((sh + json.dumps(sc["raises"]) + json.dumps(r["choices"])).encode()).hexdigest()[:16])
         rp = {"model": "m1", "scenario": sc, "choices": r["choices"]}
+        if ds.LINE_MODE:
+            rp["lines"] = True
         mons = _relevant(prop, r["monitor"])
         if mons:
             res["mon_fail"].append({"msg": mons[0], "all": mons, "replay": rp, "signature": None})
@@ -196,6 +199,15 @@ def _pbound(prop, job):
 
 
 def run_job(job):
+    old = ds.LINE_MODE
+    ds.LINE_MODE = plug.wants_lines(job)
+    try:
+        return _run_job(job)
+    finally:
+        ds.LINE_MODE = old
+
+
+def _run_job(job):
     from . import m1_signal as m1
     prop = job["prop"]
     kind = job["kind"]
